@@ -323,6 +323,8 @@ class Slices:
             return None
         if k == "Block":
             return self.slice_of(e.get("expr"), depth + 1) if e.get("expr") else None
+        if k == "Inl":
+            return self.slice_of(e.get("body"), depth + 1)      # the buffer a helper returns
         if k == "Index":
             idx = strip(e["i"])
             if idx.get("k") == "Struct" and "ops::Range" in idx.get("path", ""):
@@ -513,7 +515,7 @@ def run(facts, rep, fn_filter, floor_sites=0, floor_pairs=0):
     for p in sorted(facts.hir):
         if not fn_filter(p):
             continue
-        body = facts.hir[p]
+        body = facts.inlined(p, pred=facts.extracted_helper)      # an extracted producer / consumer stage is read in place
         sym = Sym(facts, body)
         sl = Slices(facts, body, sym)
         if not sl.buffers:
